@@ -35,18 +35,13 @@ mod verif_c11_trackers {
         fn write(&self, _state: &ProgressState, _w: &mut dyn std::fmt::Write) {}
     }
 
-    // @harness id=C11 tier=quick timeout=1800 mem=10 checks=rust
-    // @bounds one update out of {tick, set_length, inc_length, dec_length, unset_length, set_message, set_prefix} on a hidden bar with a custom key: the tracker is ticked exactly once and sees the state AFTER the update; reset() resets it exactly once
-    #[kani::proof]
-    #[kani::unwind(8)]
-    //@STUBS std noterm nomulti norender rlany noweight
-    fn c11_custom_keys_ticked_on_every_update() {
+    /// the operation is CONCRETE per harness (a symbolic choice among operations makes CBMC explore all of them behind
+    /// symbolic pointers and run out of memory); position and argument are symbolic
+    fn one_op(op: u8) {
         let pos: u64 = kani::any();
         let now = mk_instant(1_000_000, 0);
         let style = rig_style_empty().with_key("probe", Probe);
         let mut bs = rig_bar(rig_pstate(pos, Some(5), 0, 0), style, ProgressDrawTarget::hidden(), ProgressFinish::AndLeave);
-        let op: u8 = kani::any();
-        kani::assume(op < 8);
         let arg: u64 = kani::any();
         let mut want_len = Some(5u64);
         match op {
@@ -71,24 +66,52 @@ mod verif_c11_trackers {
                 bs.state.message = TabExpandedString::NoTabs("m".into());
                 bs.update_estimate_and_draw(now);
             }
-            6 => {
-                bs.state.prefix = TabExpandedString::NoTabs("p".into());
-                bs.update_estimate_and_draw(now);
-            }
             _ => {
                 bs.reset(now, Reset::All);
             }
         }
         unsafe {
-            if op == 7 {
+            if op == 6 {
                 assert!(RESETS == 1);
             } else {
                 assert!(TICKS == 1 && RESETS == 0);
                 assert!(SEEN_POS == pos && SEEN_LEN == want_len);
             }
         }
-        kani::cover!(op == 4);
-        kani::cover!(op == 7);
+        kani::cover!(pos == u64::MAX);
         std::mem::forget(bs);
     }
+
+    macro_rules! c11_tracker {
+        ($name:ident, $op:expr) => {
+            #[kani::proof]
+            #[kani::unwind(8)]
+            //@STUBS std now noterm nomulti norender rlany noweight
+            fn $name() {
+                one_op($op);
+            }
+        };
+    }
+
+    // @harness id=C11 tier=quick timeout=1800 mem=12 checks=rust
+    // @bounds tick() on a hidden bar with a custom key (position over u64): the tracker is ticked exactly once and sees the current state
+    c11_tracker!(c11_tracker_ticked_on_tick, 0);
+    // @harness id=C11 tier=quick timeout=1800 mem=12 checks=rust
+    // @bounds set_length(any u64): the tracker is ticked exactly once and sees the NEW length
+    c11_tracker!(c11_tracker_ticked_on_set_length, 1);
+    // @harness id=C11 tier=quick timeout=1800 mem=12 checks=rust
+    // @bounds inc_length(any u64): ticked once, sees the saturated new length
+    c11_tracker!(c11_tracker_ticked_on_inc_length, 2);
+    // @harness id=C11 tier=thorough timeout=1800 mem=12 checks=rust
+    // @bounds dec_length(any u64): ticked once, sees the saturated new length
+    c11_tracker!(c11_tracker_ticked_on_dec_length, 3);
+    // @harness id=C11 tier=quick timeout=1800 mem=12 checks=rust
+    // @bounds unset_length(): ticked once, sees an unknown length
+    c11_tracker!(c11_tracker_ticked_on_unset_length, 4);
+    // @harness id=C11 tier=quick timeout=1800 mem=12 checks=rust
+    // @bounds set_message (assignment + update_estimate_and_draw, as ProgressBar performs it): ticked once
+    c11_tracker!(c11_tracker_ticked_on_set_message, 5);
+    // @harness id=C11 tier=quick timeout=1800 mem=12 checks=rust
+    // @bounds reset(): the tracker is reset exactly once (and not ticked)
+    c11_tracker!(c11_tracker_reset_on_reset, 6);
 }
